@@ -818,6 +818,12 @@ static void exec_cmd(char *cmd)
         tr("REL=%d ", r);
         if (r) conn_released[cur] = 1;
     } else if (!strcmp(argv[0], "clone")) { NEEDC xmpp_conn_clone(c);
+    } else if (!strcmp(argv[0], "smpoke")) { NEEDC
+        /* test device: set the SM counters of the current connection directly ("-" = leave as is) */
+        if (c->sm_state) {
+            if (argc > 1 && strcmp(argv[1], "-")) c->sm_state->sm_sent_nr = (uint32_t)strtoul(argv[1], NULL, 10);
+            if (argc > 2 && strcmp(argv[2], "-")) c->sm_state->sm_handled_nr = (uint32_t)strtoul(argv[2], NULL, 10);
+        }
     } else if (!strcmp(argv[0], "getsm")) { NEEDC held_sm = xmpp_conn_get_sm_state(c); tr("GETSM=%d ", held_sm != NULL);
     } else if (!strcmp(argv[0], "setsm")) { NEEDC
         if (held_sm) { int rc = xmpp_conn_set_sm_state(c, held_sm); tr("SETSM=%d ", rc); if (rc == 0) held_sm = NULL; } else tr("SETSM=none ");
